@@ -27,6 +27,8 @@ structure Frame where
   vars : Nat → Int
   /-- the grapheme being printed (print() only) -/
   g : G := []
+  /-- the cell local `ch` (rep() only) -/
+  cell : ECell := {}
 
 def Frame.get (s : Frame) : Loc → Int
   | .curRow => s.e.cur.row
@@ -170,6 +172,10 @@ def evalG (pm : List Param) (s : Frame) : Stmt → List Int → Grid → M (Grid
   | .setPen r c, lvs, g => do
     let g' ← modCell g (evalEx pm s lvs r) (evalEx pm s lvs c) (fun x => { x with st := s.e.cur.st })
     .ok (g', .norm)
+  | .setCharFromCell r c, lvs, g => do
+    let g' ← modCell g (evalEx pm s lvs r) (evalEx pm s lvs c) (fun x => { x with g := s.cell.g, w := s.cell.w })
+    .ok (g', .norm)
+  | .loadCell _ _, _, g => .ok (g, .norm)    -- excluded by `wf`
   | .prim _, _, g => .ok (g, .norm)          -- excluded by `wf`
   | .assign _ _, _, g => .ok (g, .norm)      -- excluded by `wf`
   | .setLastCol _, _, g => .ok (g, .norm)    -- excluded by `wf`
@@ -206,6 +212,10 @@ def evalS (pm : List Param) : Stmt → Frame → M (Frame × Sig)
     let e' ← callFn f (match arg with | some x => evalEx pm s [] x | none => 0) s.e
     .ok ({ s with e := e' }, .norm)
   | .unknown _, s => .ok (s, .norm)
+  | .loadCell r c, s => do
+    let row ← getI s.e.active (evalEx pm s [] r)
+    let x ← getI row (evalEx pm s [] c)
+    .ok ({ s with cell := x }, .norm)
   | .prim .decSpecial, s =>
     .ok ({ s with g := match s.g with
                        | [b] => if s.e.cs.desig s.e.cs.sel = 1 then (lookupSpecial b).getD s.g else s.g
@@ -259,6 +269,7 @@ def loopWf (allowRet : Bool) : Stmt → Bool
   | .putGlyph _ _ _ => true
   | .setSpace _ _ => true
   | .setPen _ _ => true
+  | .setCharFromCell _ _ => true
   | _ => false
 
 /-- function level; `tail` = nothing follows this statement in the function -/
